@@ -19,10 +19,10 @@ def specialOperators : List String := ["matchAny:in", "clauseMatchesContext:segm
 def errorTypes : List String := ["badAttrRefError", "badVariationError", "circularPrereqReferenceError", "circularSegmentReferenceError", "emptyAttrRefError", "emptyRolloutError", "malformedSegmentError"]
 def errorKinds : List (String × String) := [("badAttrRefError", "EvalErrorMalformedFlag"), ("badVariationError", "EvalErrorMalformedFlag"), ("circularPrereqReferenceError", "EvalErrorMalformedFlag"), ("emptyAttrRefError", "EvalErrorMalformedFlag"), ("emptyRolloutError", "EvalErrorMalformedFlag"), ("malformedSegmentError", "EvalErrorMalformedFlag")]
 def errorKindFallback : String := "EvalErrorException"
-def evaluateFirstCheck : String := "context.Err(…) != nil => EvalErrorUserNotSpecified"
+def evaluateFirstCheck : String := "(ldcontext.Context).Err() != nil => EvalErrorUserNotSpecified"
 
 def statusPriority : List (String × String) := [("BigSegmentsStale", "1"), ("BigSegmentsStoreError", "2"), ("BigSegmentsNotConfigured", "3"), ("default", "0")]
-def bigSegmentRefFormat : String := "%s.g%d <- s.Key, s.Generation.IntValue(…)"
+def bigSegmentRefFormat : String := "%s.g%d <- (*ldmodel.Segment).Key, (*ldmodel.Segment).Generation.IntValue()"
 
 def stackParams : List (String × String) := [("checkPrerequisites", "evaluationStack"), ("clauseMatchesContext", "evaluationStack"), ("evaluate", "evaluationStack"), ("evaluatePrerequisite", "evaluationStack"), ("ruleMatchesContext", "evaluationStack"), ("segmentContainsContext", "evaluationStack"), ("segmentRuleMatchesContext", "evaluationStack")]
 
@@ -54,47 +54,47 @@ def entryPoints : List (String × String) := [("(*FeatureFlag).UnmarshalEasyJSON
 
 def packageVars : List String := ["ldmodel.EvaluatorAccessors : EvaluatorAccessorMethods", "ldmodel.TypeConversions : TypeConversionMethods"]
 def sharedWrites : List String := [
-  "evaluation.(evaluatorOptionBigSegmentProvider).apply: e.bigSegmentProvider",
-  "evaluation.(evaluatorOptionEnableSecondaryKey).apply: e.enableSecondaryKey",
-  "evaluation.(evaluatorOptionErrorLogger).apply: e.errorLogger",
-  "ldmodel.(*FeatureFlag).UnmarshalJSON: *f",
-  "ldmodel.(*Segment).UnmarshalJSON: *s",
-  "ldmodel.PreprocessFlag: f.Rules[i].Clauses[j].preprocessed",
-  "ldmodel.PreprocessFlag: f.Targets[i].preprocessed.valuesMap",
-  "ldmodel.PreprocessSegment: s.ExcludedContexts[i].preprocessed.valuesMap",
-  "ldmodel.PreprocessSegment: s.IncludedContexts[i].preprocessed.valuesMap",
-  "ldmodel.PreprocessSegment: s.Rules[i].Clauses[j].preprocessed",
-  "ldmodel.PreprocessSegment: s.preprocessed",
-  "ldmodel.readClauses: *out",
-  "ldmodel.readFeatureFlag: flag.ClientSideAvailability",
-  "ldmodel.readFeatureFlag: flag.DebugEventsUntilDate",
-  "ldmodel.readFeatureFlag: flag.Deleted",
-  "ldmodel.readFeatureFlag: flag.ExcludeFromSummaries",
-  "ldmodel.readFeatureFlag: flag.Key",
-  "ldmodel.readFeatureFlag: flag.On",
-  "ldmodel.readFeatureFlag: flag.Salt",
-  "ldmodel.readFeatureFlag: flag.SamplingRatio",
-  "ldmodel.readFeatureFlag: flag.TrackEvents",
-  "ldmodel.readFeatureFlag: flag.TrackEventsFallthrough",
-  "ldmodel.readFeatureFlag: flag.Version",
-  "ldmodel.readFlagRules: *out",
-  "ldmodel.readMigration: flag.Migration",
-  "ldmodel.readMigration: flag.Migration.CheckRatio",
-  "ldmodel.readPrerequisites: *out",
-  "ldmodel.readRollout: *out",
-  "ldmodel.readRollout: out.ContextKind",
-  "ldmodel.readRollout: out.Kind",
-  "ldmodel.readRollout: out.Seed",
-  "ldmodel.readRollout: out.Variations",
-  "ldmodel.readSegment: segment.Deleted",
-  "ldmodel.readSegment: segment.Key",
-  "ldmodel.readSegment: segment.Rules",
-  "ldmodel.readSegment: segment.Salt",
-  "ldmodel.readSegment: segment.Unbounded",
-  "ldmodel.readSegment: segment.UnboundedContextKind",
-  "ldmodel.readSegment: segment.Version",
-  "ldmodel.readSegmentTargets: *out",
-  "ldmodel.readTargets: *out"
+  "evaluation.(evaluatorOptionBigSegmentProvider).apply: (*evaluator).bigSegmentProvider",
+  "evaluation.(evaluatorOptionEnableSecondaryKey).apply: (*evaluator).enableSecondaryKey",
+  "evaluation.(evaluatorOptionErrorLogger).apply: (*evaluator).errorLogger",
+  "ldmodel.(*FeatureFlag).UnmarshalJSON: *(*FeatureFlag)",
+  "ldmodel.(*Segment).UnmarshalJSON: *(*Segment)",
+  "ldmodel.PreprocessFlag: (*FeatureFlag).Rules[].Clauses[].preprocessed",
+  "ldmodel.PreprocessFlag: (*FeatureFlag).Targets[].preprocessed.valuesMap",
+  "ldmodel.PreprocessSegment: (*Segment).ExcludedContexts[].preprocessed.valuesMap",
+  "ldmodel.PreprocessSegment: (*Segment).IncludedContexts[].preprocessed.valuesMap",
+  "ldmodel.PreprocessSegment: (*Segment).Rules[].Clauses[].preprocessed",
+  "ldmodel.PreprocessSegment: (*Segment).preprocessed",
+  "ldmodel.readClauses: *(*[]Clause)",
+  "ldmodel.readFeatureFlag: (*FeatureFlag).ClientSideAvailability",
+  "ldmodel.readFeatureFlag: (*FeatureFlag).DebugEventsUntilDate",
+  "ldmodel.readFeatureFlag: (*FeatureFlag).Deleted",
+  "ldmodel.readFeatureFlag: (*FeatureFlag).ExcludeFromSummaries",
+  "ldmodel.readFeatureFlag: (*FeatureFlag).Key",
+  "ldmodel.readFeatureFlag: (*FeatureFlag).On",
+  "ldmodel.readFeatureFlag: (*FeatureFlag).Salt",
+  "ldmodel.readFeatureFlag: (*FeatureFlag).SamplingRatio",
+  "ldmodel.readFeatureFlag: (*FeatureFlag).TrackEvents",
+  "ldmodel.readFeatureFlag: (*FeatureFlag).TrackEventsFallthrough",
+  "ldmodel.readFeatureFlag: (*FeatureFlag).Version",
+  "ldmodel.readFlagRules: *(*[]FlagRule)",
+  "ldmodel.readMigration: (*FeatureFlag).Migration",
+  "ldmodel.readMigration: (*FeatureFlag).Migration.CheckRatio",
+  "ldmodel.readPrerequisites: *(*[]Prerequisite)",
+  "ldmodel.readRollout: (*Rollout).ContextKind",
+  "ldmodel.readRollout: (*Rollout).Kind",
+  "ldmodel.readRollout: (*Rollout).Seed",
+  "ldmodel.readRollout: (*Rollout).Variations",
+  "ldmodel.readRollout: *(*Rollout)",
+  "ldmodel.readSegment: (*Segment).Deleted",
+  "ldmodel.readSegment: (*Segment).Key",
+  "ldmodel.readSegment: (*Segment).Rules",
+  "ldmodel.readSegment: (*Segment).Salt",
+  "ldmodel.readSegment: (*Segment).Unbounded",
+  "ldmodel.readSegment: (*Segment).UnboundedContextKind",
+  "ldmodel.readSegment: (*Segment).Version",
+  "ldmodel.readSegmentTargets: *(*[]SegmentTarget)",
+  "ldmodel.readTargets: *(*[]Target)"
 ]
 def stateFields : List String := ["evaluator.dataProvider : DataProvider", "evaluator.bigSegmentProvider : BigSegmentProvider", "evaluator.errorLogger : ldlog.BaseLogger", "evaluator.enableSecondaryKey : bool", "evaluationScope.owner : *evaluator", "evaluationScope.flag : *ldmodel.FeatureFlag", "evaluationScope.context : ldcontext.Context", "evaluationScope.prerequisiteFlagEventRecorder : PrerequisiteFlagEventRecorder", "evaluationScope.bigSegmentsMemberships : map[string]BigSegmentMembership", "evaluationScope.bigSegmentsStatus : ldreason.BigSegmentsStatus"]
 
